@@ -217,7 +217,11 @@ class Check:
             rec = {'property': s.prop, 'family': f.name, 'entry': f.entry, 'harness': f.harness, 'defs': list(f.defs),
                    'kind': v['kind'], 'label': v.get('label') or '', 'msg': v['msg'], 'where': v['where'],
                    'tags': v.get('tags') or {}, 'inputs': v['inputs'], 'count': len(vs)}
-            rec['replay'] = s._replay_violation(f, v)
+            if (f.opts or {}).get('nprocs', 1) > 1:
+                # found under a particular interleaving of engine threads: a native run cannot be forced into that schedule
+                rec['replay'] = {'confirmed': None, 'note': 'schedule-dependent: the interleaving is part of the counterexample (see inputs / path), not replayable natively'}
+            else:
+                rec['replay'] = s._replay_violation(f, v)
             s.violations.append(rec)
         if f.witness and not witness_hit:
             s.problems.append('%s: reachability witness was NOT violated: harness is vacuous' % f.name)
